@@ -12,12 +12,23 @@ import (
 // relOf normalises a comparison fact (cond, truth) into a canonical relation
 // string over exprKeys: "x < y", "x <= y", "x == y", "x != y". Orientation:
 // > and >= are rewritten to < and <= by swapping; == and != sort operands.
+// relKeyFn, when set, renders the operands of relations (used to resolve the phis nested in a
+// condition according to its position on an enumerated path).
+var relKeyFn func(ssa.Value) string
+
+func rk(v ssa.Value) string {
+	if relKeyFn != nil {
+		return relKeyFn(v)
+	}
+	return sk(v)
+}
+
 func relOf(f fact) (string, bool) {
 	b, ok := f.Cond.(*ssa.BinOp)
 	if !ok {
 		// a call of a straight-line helper that returns a comparison: use the comparison itself
 		if c, isCall := f.Cond.(*ssa.Call); isCall {
-			if r, ok := relFromKey(sk(c), f.Val); ok {
+			if r, ok := relFromKey(rk(c), f.Val); ok {
 				return r, true
 			}
 		}
@@ -26,12 +37,12 @@ func relOf(f fact) (string, bool) {
 			return relOf(fact{Cond: u.X, Val: !f.Val})
 		}
 		if f.Val {
-			return sk(f.Cond) + " == true", true
+			return rk(f.Cond) + " == true", true
 		}
-		return sk(f.Cond) + " == false", true
+		return rk(f.Cond) + " == false", true
 	}
 	op := b.Op
-	x, y := sk(b.X), sk(b.Y)
+	x, y := rk(b.X), rk(b.Y)
 	if !f.Val {
 		switch op {
 		case token.LSS:
